@@ -110,8 +110,8 @@ PROPS["C08"] = {
     "level_text": "Stateful property test in which the four annotations are set, flipped and removed (true/false/absent/garbage) in generated order over rollouts in progress; after every sync: no update-deletion under rolling-update-paused, no create and no update-deletion under rollout-frozen, creation still happens under pause when nothing else gates it, no canary pod created in a sync that is or ends paused/failed, time never promotes a paused canary, status.state/reason agree with annotations and canary facts; afterwards the annotations are removed (canary unpaused/validated) and the history must converge (resume).",
     "level_note": SM_NOTE,
     "technique": "stateful property-based testing (rapid) with per-step invariants + convergence oracle for 'resume'",
-    "quick": {"jobs": [rapid_job("sm", "^TestC08SM$", 500, shards=4)]},
-    "thorough": {"jobs": [rapid_job("sm", "^TestC08SM$", 2500, shards=16, timeout="50m")]},
+    "quick": {"jobs": [rapid_job("sm", "^TestC08SM$", 500, shards=4), rapid_job("toggles", "^TestC08Toggles$", 1, shards=2)]},
+    "thorough": {"jobs": [rapid_job("sm", "^TestC08SM$", 2500, shards=14, timeout="50m"), rapid_job("toggles", "^TestC08Toggles$", 1, shards=2)]},
 }
 
 PROPS["C09"] = {
